@@ -65,6 +65,81 @@ func stepPhi(v ssa.Value) bool {
 	return init && step
 }
 
+// parserSSA: the token cursor functions of the parser on the SSA form.
+type parserSSA struct {
+	next, curIs, peekIs, expect *ssa.Function
+	curIdx, peekIdx             int
+	pkg                         *ssa.Package
+}
+
+func (w *World) parserSSA() *parserSSA {
+	pm := w.parserModel()
+	if len(pm.problems) > 0 || pm.advance == nil || pm.curIs == nil || pm.peekIs == nil {
+		return nil
+	}
+	w.SSA()
+	ps := &parserSSA{next: w.SSAFunc(pm.advance), curIs: w.SSAFunc(pm.curIs), peekIs: w.SSAFunc(pm.peekIs), pkg: w.SSAPkg("parser")}
+	if pm.expectPeek != nil {
+		ps.expect = w.SSAFunc(pm.expectPeek)
+	}
+	if ps.next == nil || ps.curIs == nil || ps.peekIs == nil || ps.pkg == nil {
+		return nil
+	}
+	st := pm.typ.Underlying().(*types.Struct)
+	ps.curIdx, ps.peekIdx = fieldIndex(st, pm.cur), fieldIndex(st, pm.peek)
+	return ps
+}
+
+// tokenTest: cond is curTokenIs(T) / peekTokenIs(T) / expectPeek(T), or a comparison of the current or
+// peek token's Type with a constant; returns the token, which cursor, and whether the condition being
+// true means "the token is T".
+func (ps *parserSSA) tokenTest(p *pwPath, cond ssa.Value) (tok string, which string, positive bool, ok bool) {
+	cond = p.resolve(cond)
+	if c, isCall := cond.(*ssa.Call); isCall {
+		cal := c.Call.StaticCallee()
+		if (cal == ps.curIs || cal == ps.peekIs || (ps.expect != nil && cal == ps.expect)) && len(c.Call.Args) == 2 {
+			if k, isC := p.constOf(c.Call.Args[1]); isC && k.Kind() == constant.String {
+				which := "cur"
+				if cal != ps.curIs {
+					which = "peek"
+				}
+				return constant.StringVal(k), which, true, true
+			}
+		}
+		return "", "", false, false
+	}
+	bo, isBO := cond.(*ssa.BinOp)
+	if !isBO || (bo.Op != token.EQL && bo.Op != token.NEQ) {
+		return "", "", false, false
+	}
+	x, y := p.resolve(bo.X), p.resolve(bo.Y)
+	k, isC := p.constOf(y)
+	if !isC {
+		k, isC = p.constOf(x)
+		x = y
+	}
+	if !isC || k.Kind() != constant.String {
+		return "", "", false, false
+	}
+	ld, isLd := x.(*ssa.UnOp)
+	if !isLd || ld.Op != token.MUL {
+		return "", "", false, false
+	}
+	fa, isFA := ld.X.(*ssa.FieldAddr)
+	if !isFA {
+		return "", "", false, false
+	}
+	inner, isFA2 := p.resolve(fa.X).(*ssa.FieldAddr)
+	if !isFA2 || (inner.Field != ps.curIdx && inner.Field != ps.peekIdx) {
+		return "", "", false, false
+	}
+	which = "cur"
+	if inner.Field == ps.peekIdx {
+		which = "peek"
+	}
+	return constant.StringVal(k), which, bo.Op == token.EQL, true
+}
+
 func parserLoopsRuleSSA(r *Run, rule string) {
 	w := r.W
 	pm := w.parserModel()
